@@ -338,6 +338,15 @@ def addChunk (l : List ((Nat × Nat) × Nat × Nat)) (key : Nat × Nat) (off : N
 
 def setByte (d : Bytes) (i : Nat) (v : UInt8) : Bytes := if i < d.length then d.set i v else d
 
+/-- the six sections the classifier of the fully-decrypted view knows, and the decidable "no two of them overlap" -/
+def sixList : List Nat := [secRomFS, secExeFS, secHeader, secExtHeader, secLogo, secPlain]
+
+def regionsApart (s : State) : Bool :=
+  sixList.all fun a => sixList.all fun b =>
+    a == b || match s.region? a, s.region? b with
+      | some ra, some rb => decide (ra.stop ≤ rb.offset ∨ rb.stop ≤ ra.offset)
+      | _, _ => true
+
 /-- the dict key under which a chunk is collected and the chunk's offset inside that key's source -/
 def chunkKey (s : State) (c : Nat) : (Nat × Nat) × Nat :=
   ((if (classify s c).1 == secRaw then (secRaw, c) else ((classify s c).1, 0)), c - (classify s c).2)
